@@ -743,7 +743,6 @@ def main():
         model_ok = mout.startswith("ok")
         model_vals = [int(v) for v in mout.split()[1:]] if model_ok else None
         chk = touts[c["ci"]] if c["ci"] is not None else None
-        chk_key = None
         if kind == "rsqrt" and chk is not None and cfg.get("captured"):
             # the multiplier the code derived from the two scales against the reference's derivation (float32 sqrt and product,
             # double reciprocal, QuantizeMultiplier): equal tables can hide a multiplier that is wrong in its low bits
@@ -755,10 +754,9 @@ def main():
                              f"{'' if chk.startswith('1 ') else '; table verdict ' + chk[:80]}",
                              {"kind": "table", **cfg, "reference_verdict": chk[:200]}, found_input=chk.startswith("0 index"))
         if kind == "rsqrt" and chk is not None:
+            ck.count("table_rsqrt_zp_in_%s" % ("minus_128" if cfg["zp_in"] == -128 else "other"))
             if chk.startswith("1 "):
                 chk = "1"
-            elif chk.startswith("0 zero-input-only") and cfg["zp_in"] != -128:
-                chk_key = "rsqrt-lut-zero-input-entry-not-max-unless-zp-in-is-minus-128"
         if kind == "hswish":
             ck.count("hswish_relu_shift_%s" % ("lt31" if cfg["relu_shift"] < 31 else ("eq31" if cfg["relu_shift"] == 31 else "gt31")))
         if kind in ("sigmoid", "tanh"):
@@ -806,18 +804,12 @@ def main():
         if same:
             if chk is not None and chk not in ("1", "na"):
                 # model and code agree, reference kernel differs: a proof obligation (model = reference) must have failed too
-                if (kind, "ref", chk_key) not in tab_reported:
-                    tab_reported.add((kind, "ref", chk_key))
+                if (kind, "ref") not in tab_reported:
+                    tab_reported.add((kind, "ref"))
                     ck.violation(f"{kind} table differs from the Lean reference kernel ({chk}) although model and code agree",
-                                 {"kind": "table", **cfg, "reference_verdict": chk, "table": c["real"][:512]}, key=chk_key)
+                                 {"kind": "table", **cfg, "reference_verdict": chk, "table": c["real"][:512]})
             if chk is not None:
                 ck.count(f"table_{kind}_reference_{'ok' if chk == '1' else ('na' if chk == 'na' else 'reject')}")
-            continue
-        if (kind == "rsqrt" and chk == "1" and c["status"] == "ok" and model_ok and
-                all(a == b or j - 128 <= cfg["zp_in"] for j, (a, b) in enumerate(zip(c["real"], model_vals)))):
-            # the TFLite reference accepts the whole table and it differs from Model/Lut.lean (transcription of the unrepaired code) only at
-            # entries for real input <= 0: finding rsqrt-lut-zero-input-entry-not-max-... is repaired in this tree (verif_patches/C19-11)
-            ck.count("table_rsqrt_zero_input_code_follows_reference")
             continue
         # disagreement: classify
         key = None
